@@ -25,6 +25,8 @@ EXPLANATION = (
     ' same axis, else 1000.'
     " R11.8: the svg element's own x, y, width, height - the e-x, e-y, e-width, e-height of the algorithm -"
     ' resolve percentages against the viewport axis they lie on (C03 R03.7 for the svg element).'
+    " R11.9: the element size enters the algorithm in user units, so C12's value table (every unit of"
+    ' Length.value against the CSS ratio, context-dependent units staying symbolic) runs here as well.'
 )
 TECHNIQUE = (
     "static analysis (no execution): the whole function partially evaluated for every preserveAspectRatio value (10 align x 3 meetOrSlice + defaults) and every identity-test answer; resulting transform strings compared with the SVG 2 8.2 reference as exact canonical forms"
